@@ -11,6 +11,9 @@ type Disk struct {
 	Files map[string][]byte
 	Dirs  map[string]bool
 	Links map[string]string // symbolic links: path -> target (absolute, or relative to the link's directory)
+	// Pipes marks files that are named pipes (or /dev/fd entries of a process substitution): they
+	// deliver their content when read, but stat reports size 0 and the mode of a pipe.
+	Pipes map[string]bool
 }
 
 // NewDisk returns an empty disk containing only "/".
@@ -32,6 +35,12 @@ func (d *Disk) Clone() *Disk {
 	}
 	for k := range d.Dirs {
 		n.Dirs[k] = true
+	}
+	if d.Pipes != nil {
+		n.Pipes = make(map[string]bool, len(d.Pipes))
+		for k := range d.Pipes {
+			n.Pipes[k] = true
+		}
 	}
 	return n
 }
@@ -413,6 +422,9 @@ func (k *Kernel) doStat(t *task, path string, lstat bool) Rep {
 	}
 	// S: the resolved path - the identity of the file (what os.SameFile compares)
 	if c, ok := k.disk.Files[path]; ok {
+		if k.disk.Pipes[path] {
+			return Rep{A: 3, B: 0, S: path}
+		}
 		return Rep{A: 0, B: int64(len(c)), S: path}
 	}
 	if k.disk.Dirs[path] {
@@ -461,7 +473,8 @@ func (k *Kernel) doWriteFile(t *task, path string, data []byte) Rep {
 	if k.disk.Dirs[path] {
 		return Rep{Status: int64(syscall.EISDIR)}
 	}
-	if !k.disk.Dirs[parentDir(path)] {
+	if !k.disk.Dirs[parentDir(path)] && parentDir(path) != "/tmp" {
+		// (the directory for temporary files always exists)
 		return Rep{Status: int64(syscall.ENOENT)}
 	}
 	if !k.diskOwned {
